@@ -19,7 +19,6 @@ The oracle decompresses input and output with NumPy (lib.dense_np) and checks
     (computed by exact integer elimination), at least 1.
 """
 from lib import *
-from fractions import Fraction
 
 RTOL = 1e-6
 # "a tolerance just above floating-point noise": singular values come from an SVD (noise ~1e-16 |x|) for algorithm
@@ -114,10 +113,6 @@ def int_rank(M):
         if r == m:
             break
     return r
-
-
-def is_integral(x):
-    return bool(np.all(np.abs(x - np.round(x)) == 0)) and float(np.max(np.abs(x), initial=0)) < 2 ** 52
 
 
 def exact_unfolding_ranks(xi, floor=1):
@@ -443,13 +438,20 @@ class Prop:
             flat_idx = sorted(rng.sample(range(total), P))
             X = [list(int(v) for v in np.unravel_index(i, shape)) for i in flat_idx]
             r = rng.random()
-            if r < 0.08:
+            if rng.random() < 0.3:      # superdiagonal samples with graded values: truncations fill their budget
+                n = rng.randint(3, 6)
+                shape = [n] * N
+                X = [[i] * N for i in range(n)]
+                P = n; total = n ** N
+                y = [rng.randint(30, 120)] + [rng.randint(1, 14) for _ in range(n - 1)]
+                rng.shuffle(y)
+            elif r < 0.08:
                 y = [0] * P
             elif r < 0.5:
                 y = [rng.randint(-3, 3) for _ in range(P)]
             else:
                 y = [rng.choice([1, 2, 3, -1, 10, 100, 1000]) for _ in range(P)]
-            eps = rng.choice(EPS_LIST + [1e-6, 1e-6])
+            eps = rng.choice(EPS_LIST + [1e-6, 1e-6, round(rng.uniform(0.03, 0.6), 3), round(rng.uniform(0.03, 0.6), 3)])
             rmax = rng.choice([None, None, 1, 2, 5])
             give_shape = rng.random() < 0.7
             tg = dict(op="sparse_tt_svd", kind="sparse", N=N, eps=str(eps), alg="eig", tiny=is_tiny(eps, "eig"),
@@ -457,13 +459,19 @@ class Prop:
                       zero=all(v == 0 for v in y))
             cases.append({"op": "sparse_tt_svd", "shape": shape, "X": X, "y": y, "eps": eps, "rmax": rmax,
                           "shape_given": give_shape, "tags": tg})
+        for N in (2, 3, 4):          # all-zero samples
+            for eps in (0.1, 1e-6):
+                shape = [rng.randint(1, 3) for _ in range(N)]
+                X = [[rng.randrange(sz) for sz in shape]]
+                cases.append({"op": "sparse_tt_svd", "shape": shape, "X": X, "y": [0], "eps": eps, "rmax": None, "shape_given": True,
+                              "tags": dict(op="sparse_tt_svd", kind="sparse-zero", N=N, eps=str(eps), alg="eig",
+                                           tiny=is_tiny(eps, "eig"), rmax="none", full=False, shape_given=True, zero=True)})
         # 10. batch tensors (TT cores, optional factors)
         for _ in range(60 if quick else 600):
             N = rng.randint(2, 3)
             B = rng.randint(1, 3)
             kinds = [("tt", rng.random() < 0.4) for _ in range(N)]
             shape = rshape(N, 3)
-            st = rng.getstate()
             first = rand_tensor_json(rng, shape, kinds, maxr=3, maxs=3)
             tjs = [first]
             for b in range(1, B):       # same format and sizes, fresh entries
@@ -495,7 +503,7 @@ class Prop:
         if case.get("dim") is not None:
             kw["dim"] = case["dim"]
         if op in INPLACE:
-            ret = getattr(t, op)(**kw)
+            getattr(t, op)(**kw)
             return t
         f = {"tn.round_tt": tn.round_tt, "tn.round_tucker": tn.round_tucker, "tn.round": tn.round}[op]
         return f(t, **kw)
